@@ -27,10 +27,13 @@ type WriteCase struct {
 	Tasks     []string `json:"tasks"`
 	Nested    bool     `json:"nested"`
 	PreCache  bool     `json:"pre_cache"`
-	// SpokLink: the spokfile is a symbolic link to real.spok (which holds the text)
+	// SpokLink: the spokfile is a symbolic link to conf/real.spok (which holds the text); the
+	// project directory — cache, globs, .env — is still where the link is
 	SpokLink bool `json:"spok_link,omitempty"`
 	// Elsewhere: spok is started in a directory outside the project with --spokfile <project>/spokfile
 	Elsewhere bool `json:"elsewhere,omitempty"`
+	// BadName: --spokfile names an existing file called Spokfile (wrong case): spok must refuse it
+	BadName bool `json:"bad_name,omitempty"`
 }
 
 var writeTreePool = []string{"main.go", "pkg/a.go", "pkg/sub/b.go", "docs/readme.md", "nested/dir/x.txt", "Makefile", "data/", "nested/.hidden", "spokfile.tmp", "spokfile.bak", ".spokfile.swp", "spokfile~"}
@@ -61,6 +64,7 @@ func genWrite(t *rapid.T) WriteCase {
 	c.PreCache = rapid.IntRange(0, 2).Draw(t, "precache") == 2
 	c.SpokLink = rapid.IntRange(0, 5).Draw(t, "spoklink") == 5
 	c.Elsewhere = rapid.IntRange(0, 5).Draw(t, "elsewhere") == 5
+	c.BadName = rapid.IntRange(0, 9).Draw(t, "badname") == 9
 	var taskNames []string
 	switch k := rapid.IntRange(0, 9).Draw(t, "class"); {
 	case k < 5:
@@ -135,10 +139,14 @@ func execWrite(s *ev.Shard, b *sandbox.Box, c WriteCase) *rp.Fail {
 	}
 	if c.Class != "absent" {
 		if c.SpokLink {
-			files["real.spok"] = c.Src
+			files["conf/real.spok"] = c.Src
 		} else {
 			files["spokfile"] = c.Src
 		}
+	}
+	if c.Class == "valid" && !c.SpokLink {
+		files["conf/Spokfile"] = c.Src
+		files["conf/spokfile"] = "# an unrelated spokfile\n"
 	}
 	if c.GitIgnore != nil {
 		files[".gitignore"] = *c.GitIgnore
@@ -155,7 +163,7 @@ func execWrite(s *ev.Shard, b *sandbox.Box, c WriteCase) *rp.Fail {
 	}
 	if c.Class != "absent" && c.SpokLink {
 		lp := filepath.Join(b.Proj, "spokfile")
-		if err := os.Symlink("real.spok", lp); err != nil {
+		if err := os.Symlink("conf/real.spok", lp); err != nil {
 			return &rp.Fail{Sig: "harness", Msg: err.Error()}
 		}
 		_ = os.Lchown(lp, 65534, 65534)
@@ -177,6 +185,11 @@ func execWrite(s *ev.Shard, b *sandbox.Box, c WriteCase) *rp.Fail {
 		// everything spok may touch still sits next to the spokfile, not in the working directory
 		cwd, cwdRel = filepath.Join(b.Home, "elsewhere"), "elsewhere"
 		args = append([]string{"--spokfile", filepath.Join(b.Proj, "spokfile")}, args...)
+	}
+	badName := c.BadName && c.Class == "valid" && !c.SpokLink && !hasFlag(c.Flags, "--init")
+	if badName {
+		// a file whose name differs from "spokfile" only by case is not a spokfile
+		args = append([]string{"--spokfile", filepath.Join(b.Proj, "conf", "Spokfile")}, append(append([]string(nil), c.Flags...), c.Tasks...)...)
 	}
 	res := b.Run(cwd, nil, runTimeout, args...)
 	if res.TimedOut {
@@ -208,11 +221,20 @@ func execWrite(s *ev.Shard, b *sandbox.Box, c WriteCase) *rp.Fail {
 	case hasFlag(c.Flags, "--fmt") && c.Class == "valid":
 		if c.SpokLink {
 			// the text lives behind the link: the link itself stays what it is
-			spokRel = "proj/real.spok"
+			spokRel = "proj/conf/real.spok"
 		}
 		allowed[spokRel] = "modified"
 	}
+	if badName {
+		if res.Exit == 0 {
+			return &rp.Fail{Sig: "accepted-wrong-spokfile-name", Size: size, Msg: fmt.Sprintf("%s: --spokfile names a file called Spokfile, which spok must refuse", desc)}
+		}
+		allowed = map[string]string{}
+	}
 	for _, ch := range changes {
+		if badName {
+			return &rp.Fail{Sig: "wrote-outside-permitted-set", Size: size, Msg: fmt.Sprintf("%s: the spokfile name was refused, yet %s was %s", desc, ch.Path, ch.What)}
+		}
 		if c.Class != "absent" && !hasFlag(c.Flags, "--init") && sandbox.Under(ch.Path, "proj/.spok") {
 			continue // the cache directory next to the spokfile
 		}
@@ -221,7 +243,7 @@ func execWrite(s *ev.Shard, b *sandbox.Box, c WriteCase) *rp.Fail {
 		}
 		sig := "wrote-outside-permitted-set"
 		switch {
-		case ch.Path == spokRel || ch.Path == "proj/spokfile" || ch.Path == "proj/real.spok":
+		case ch.Path == spokRel || ch.Path == "proj/spokfile" || ch.Path == "proj/conf/real.spok":
 			sig = "spokfile-touched"
 		case strings.HasSuffix(ch.Path, ".gitignore"):
 			sig = "gitignore-touched"
